@@ -351,6 +351,12 @@ func c08DecodeCOSE(c *mon.Ctx, tok []byte, pk any, sig string) (outcome string) 
 			c.Violation("C08/"+gate+"/accepted-undecodable", "validating decoder accepted a token the non-validating decoder rejects", det)
 		}
 		return "undecodable"
+	case ne == nil || isNilClaims(ne.Claims):
+		// "decoded" without any claims-set: there is nothing that could have been validated
+		if verr == nil {
+			c.Violation("C08/"+gate+"/let-invalid-through:no-claims", "validating evidence decoder returned success for a token that yields no claims-set at all", det)
+		}
+		return "decoded-without-claims"
 	case ne.Claims.Validate() != nil:
 		if verr == nil {
 			c.Violation("C08/"+gate+"/let-invalid-through", "validating evidence decoder accepted a token whose claims fail Validate()", det)
@@ -438,7 +444,7 @@ func invalidateInPlace(g *model.Gen, y psatoken.IClaims) string {
 }
 
 func runC08(c *mon.Ctx) {
-	c.Rule("every claims-set class of C01 (valid, each single / double / triple rule violation, random products; both profiles; a registered P2-based extension with its own extra rule (negative timestamp) so that a gate that runs only the generic rules is visible) built by direct field assignment, plus objects whose only defect is a profile claim that does not match the implementing type (canonical name unset / foreign; an extension object carrying its base profile's name - not expressible on the wire), plus a second, stricter registered extension whose own rules are reported with the library's ignorable sentinels (mandatory boot seed -> missing-optional, forbidden VSI -> not-in-profile); pushed through the object-side gates (also: attached/encoded while valid, then made invalid IN PLACE through a clearing setter, an exported field or a retained component pointer, and pushed through the gates again) SetClaims, ValidateAndEncodeClaimsToCBOR, ValidateAndEncodeClaimsToJSON, ValidateAndSign (7 algorithms, signer wrapped to count invocations); extension-profile tokens (CBOR, JSON, COSE) that break only the extension's own rule; the wire tokens of C04 (valid / rule-breaking / type-breaking / open encodings), JSON documents of valid and rule-breaking sets, and COSE envelopes (tokens signed with the non-validating Sign, and C04 wire tokens wrapped + signed by the harness) pushed through DecodeAndValidateClaimsFromCBOR, DecodeAndValidateClaimsFromJSON, the deprecated DecodeJSONClaims, DecodeAndValidateEvidenceFromCOSE. Oracle: the library's own Validate() on the same object / on the non-validating sibling's result: Validate fails => the gate returns an error, no bytes, no object, attaches nothing (and never invokes the signer); Validate succeeds => the gate's result equals the non-validating sibling's (bytes, payload+protected header, claims observation, Verify). SetClaims(valid) on an Evidence that already holds an envelope (decoded / has signed) must leave Verify as the plain assignment does. Also claims whose Validate() PANICS (typed nil *P1Claims / *P2Claims; a registered extension with a careless validator, as object and as CBOR / JSON / COSE token lacking the extension claim; positive control with the claim): a gate may return an error or let the panic propagate but must never report success, hand out bytes, invoke the signer or attach; and VALID claims of an extension profile that was never registered go through every object gate exactly like through the non-validating sibling. distinct_nontrivial = distinct (gate family, profile, violated-claim classes) signatures")
+	c.Rule("every claims-set class of C01 (valid, each single / double / triple rule violation, random products; both profiles; a registered P2-based extension with its own extra rule (negative timestamp) so that a gate that runs only the generic rules is visible) built by direct field assignment, plus objects whose only defect is a profile claim that does not match the implementing type (canonical name unset / foreign; an extension object carrying its base profile's name - not expressible on the wire), plus a second, stricter registered extension whose own rules are reported with the library's ignorable sentinels (mandatory boot seed -> missing-optional, forbidden VSI -> not-in-profile); pushed through the object-side gates (also: attached/encoded while valid, then made invalid IN PLACE through a clearing setter, an exported field or a retained component pointer, and pushed through the gates again) SetClaims, ValidateAndEncodeClaimsToCBOR, ValidateAndEncodeClaimsToJSON, ValidateAndSign (7 algorithms, signer wrapped to count invocations); extension-profile tokens (CBOR, JSON, COSE) that break only the extension's own rule; the wire tokens of C04 (valid / rule-breaking / type-breaking / open encodings), JSON documents of valid and rule-breaking sets, and COSE envelopes (tokens signed with the non-validating Sign, and C04 wire tokens wrapped + signed by the harness) pushed through DecodeAndValidateClaimsFromCBOR, DecodeAndValidateClaimsFromJSON, the deprecated DecodeJSONClaims, DecodeAndValidateEvidenceFromCOSE. Oracle: the library's own Validate() on the same object / on the non-validating sibling's result: Validate fails => the gate returns an error, no bytes, no object, attaches nothing (and never invokes the signer); Validate succeeds => the gate's result equals the non-validating sibling's (bytes, payload+protected header, claims observation, Verify). Envelopes whose payload is null / undefined / empty / bstr(null) (no claims-set at all) must not pass the validating COSE decoder; valid objects of an extension that makes the client id optional and drops the instance id from the profile pass every object gate. SetClaims(valid) on an Evidence that already holds an envelope (decoded / has signed) must leave Verify as the plain assignment does. Also claims whose Validate() PANICS (typed nil *P1Claims / *P2Claims; a registered extension with a careless validator, as object and as CBOR / JSON / COSE token lacking the extension claim; positive control with the claim): a gate may return an error or let the panic propagate but must never report success, hand out bytes, invoke the signer or attach; and VALID claims of an extension profile that was never registered go through every object gate exactly like through the non-validating sibling. distinct_nontrivial = distinct (gate family, profile, violated-claim classes) signatures")
 	if err := extprof.Register(extprof.ExtP2Name, extprof.ExtP1Name, extprof.ExtStrictName); err != nil {
 		c.Violation("harness/register", err.Error(), nil)
 		return
@@ -769,6 +775,50 @@ func runC08(c *mon.Ctx) {
 			})
 		}
 	}
+	// ---- envelopes that carry NO claims-set (payload null / undefined / empty /
+	// a byte string holding null) and relaxed extensions' valid objects
+	for i := 0; i < c.N(800, 20000); i++ {
+		k := ks[i%7]
+		prot := refcbor.Encode(refcbor.MapOf(refcbor.I(1), refcbor.I(coseAlgID[k.Name])))
+		pl := []*refcbor.Node{refcbor.Null(), refcbor.Undef(), refcbor.Bstr(nil), refcbor.Bstr([]byte{0xf6}), refcbor.Bstr([]byte{0xa0})}[i%5]
+		name := []string{"null", "undefined", "empty-bstr", "bstr(null)", "bstr(empty-map)"}[i%5]
+		sg := g.Bytes(64)
+		if i%2 == 0 && pl.K == refcbor.Bytes {
+			if s2, err := k.Signer.Sign(rand.Reader, refcose.SigStructure(prot, pl.B)); err == nil {
+				sg = s2
+			}
+		}
+		tok := envelopeBytes(18, refcbor.Bstr(prot), refcbor.MapOf(), pl, refcbor.Bstr(sg))
+		sig := "cose|payload-without-claims|" + name
+		c.Sig(sig)
+		guard("cose decode gates (no claims-set)", map[string]any{"token_hex": mon.Hex(tok)}, func() { c.Count("cose-no-claims:" + name + ":" + c08DecodeCOSE(c, tok, k.Pub, sig)) })
+		// a relaxed extension (client id optional, instance id not in the profile):
+		// valid objects without those claims pass every object gate
+		a := g.Valid(2)
+		x, err := obs.Build(a)
+		if err != nil {
+			continue
+		}
+		lx := extprof.NewExtLaxClaims()
+		prof := lx.Profile
+		lx.P2Claims = *obs.P2Of(x)
+		lx.Profile, lx.CanonicalProfile = prof, extprof.ExtLaxName
+		if i%2 == 0 {
+			lx.InstID = nil
+		}
+		if i%3 == 0 {
+			lx.ClientID = nil
+		}
+		if lx.Validate() != nil {
+			c.Violation("harness/lax-fixture", "relaxed extension fixture does not validate", nil)
+			continue
+		}
+		c.Count("objects:valid-relaxed-extension")
+		c08Invalidate = nil
+		guard("object gates (relaxed extension)", nil, func() {
+			c08Object(c, lx, k, "object|valid-relaxed-extension", map[string]any{"inst_id_present": lx.InstID != nil, "client_id_present": lx.ClientID != nil})
+		})
+	}
 	// ---- JSON decode gates
 	j := c.N(60000, 1500000)
 	for i := 0; i < j; i++ {
@@ -834,6 +884,7 @@ func runC08(c *mon.Ctx) {
 		guard("cose decode gates", map[string]any{"token_hex": mon.Hex(tok)}, func() { c.Count("cose:" + c08DecodeCOSE(c, tok, k.Pub, sig)) })
 	}
 	c.Floor("objects:valid", 1000)
+	c.Floor("objects:valid-relaxed-extension", 200)
 	c.Floor("setclaims-on-evidence-holding-an-envelope", 500)
 	c.Floor("objects:validate-panics:typed-nil-claims", 100)
 	c.Floor("objects:validate-panics:fragile-extension-claim-absent", 100)
